@@ -315,6 +315,8 @@ class Builder:
                 if f2.test or f2 is fn:
                     continue
                 refs = F.find_all(f2.body, lambda n_: n_.get("k") == "path" and n_["segs"][-1] == fn.name, skip_pats=True)
+                # a local variable of the same name is not a use of the function: the path has to resolve to it
+                refs = [r_ for r_ in refs if (self.resolve_path(r_["segs"], f2.module) if len(r_["segs"]) > 1 else self.scope(f2.module).get(r_["segs"][0])) == ("fn", key)]
                 if not refs:
                     continue
                 uses += len(refs)
@@ -554,7 +556,7 @@ class Builder:
         callee = self.facts.fns.get(ref["fn"])
         if callee is None:
             return
-        gens = re.findall(r"([A-Za-z_][A-Za-z0-9_]*)\s*(?::|,|>)", callee.node.get("generics") or "")
+        gens = F.generic_params(callee.node.get("generics"))
         missing = [g_ for g_ in gens if g_ not in (ref.get("targs") or {}) and not g_.startswith("'")]
         if not missing:
             return
@@ -616,7 +618,7 @@ class Builder:
             if r and r[0] == "fn":
                 fn = self.facts.fns[r[1]]
                 ts = {}
-                gens = re.findall(r"([A-Za-z_][A-Za-z0-9_]*)\s*(?::|,|>)", fn.node.get("generics") or "")
+                gens = F.generic_params(fn.node.get("generics"))
                 if gen[0] and gens:
                     ts = dict(zip(gens, [self.subst_ty(g, env) for g in gen[0]]))
                 return r[1], ts
@@ -871,7 +873,7 @@ class Builder:
     def _pe_call_local(self, e, env, f, args):
         # local function returning a parser: quote_delimiter()
         rf = self._resolve_fn_path(f, env)
-        if rf and not args:
+        if rf and not args and not rf[1]:
             fn = self.facts.fns[rf[0]]
             if self._input_name(fn) is None and "Parser<" in F.norm_ty(fn.node["output"]):
                 body = self.fn_ir(rf[0], rf[1])
@@ -879,7 +881,7 @@ class Builder:
                     return N("ref", e, fn=rf[0], targs=rf[1], extra=[], inline=True)
         # a local function *building* a parser from its arguments (what `unary!`-style macros become when written as
         # generic functions): expanded like a macro — the body with the parameters replaced by the argument expressions
-        if rf and args:
+        if rf and (args or rf[1]):
             fn = self.facts.fns[rf[0]]
             if self._input_name(fn) is None and "Parser<" in F.norm_ty(fn.node["output"]) and len(fn.params) == len(args) and all(n for n, _ in fn.params):
                 real = [s_ for s_ in fn.body["stmts"] if s_["k"] != "item"]
@@ -898,6 +900,9 @@ class Builder:
                         try:
                             # arguments are written in the caller's scope, the body in the callee's: both are searched
                             env2 = dict(env)
+                            if rf[1]:
+                                # type parameters given at the call (`primary::<Test>()`)
+                                env2["__tsubst"] = dict(env.get("__tsubst") or {}, **rf[1])
                             if tuple(fn.module) != tuple(env["__module"]):
                                 env2["__module_fallback"] = env["__module"]
                                 env2["__module"] = fn.module
